@@ -57,6 +57,25 @@ func TestSweep(t *testing.T) {
 			}
 		}
 	}
+	// same-type conversions between two windows of one parent
+	for _, e := range convtab.Entries {
+		if e.S.Name != e.D.Name {
+			continue
+		}
+		var vals []kit.Val
+		for i := 0; i < 7; i++ {
+			if e.S.Kind == kit.Float {
+				vals = append(vals, kit.FV(float64(i+1)/8))
+			} else {
+				vals = append(vals, convtab.AmpToCode(e.S, int64(i+1)))
+			}
+		}
+		for C := 1; C <= 2; C++ {
+			for _, w := range [][4]int{{0, 3, 0, 3}, {1, 3, 0, 2}, {0, 2, 1, 4}, {2, 2, 0, 1}} {
+				Oracle.One(t, env, rec, "sweep", &Case{S: e.S.Name, D: e.D.Name, C: C, Src: Win{Kr: 3, A: w[0], B: w[1]}, Dst: Win{Kr: 4, A: w[2], B: w[3]}, Vals: vals, SameRoot: true})
+			}
+		}
+	}
 	// results equal to what the destination already holds (zeros of both signs), for every instantiation
 	for _, e := range convtab.Entries {
 		var vals []kit.Val
